@@ -125,7 +125,7 @@ def unrepaired : Fixes := ⟨false, false, false, false, false, false, false⟩
 def allFixed : Fixes := ⟨true, true, true, true, true, true, true⟩
 /-- the tree as it stands: the ONE line to change when fixes/*.diff are applied to /repo
 (`allFixed`, or single fields when only some are applied) -/
-def current : Fixes := unrepaired
+def current : Fixes := allFixed
 
 /-- what the caller sees -/
 structure Out where
